@@ -73,8 +73,18 @@ def _resolve(modname, qualname):
   return o
 
 
+def _set_floatx(tf, fx):
+  tf.keras.backend.set_floatx(fx)
+  try:
+    import tf_keras
+    tf_keras.backend.set_floatx(fx)
+  except ImportError:
+    pass
+
+
 def run_one(d, tf):
   kind = d['kind']
+  _set_floatx(tf, d.get('floatx', 'float64'))
   args = _dec(d.get('args', []), tf)
   kwargs = _dec(d.get('kwargs', {}), tf)
   if kind == 'fn':
